@@ -37,6 +37,12 @@ func main() {
 		switch os.Args[2] {
 		case "c02":
 			genC02(g, n, os.Stdout)
+		case "c12":
+			genC12(g, n, os.Stdout)
+		case "c14":
+			genC14(g, n, os.Stdout)
+		case "c13":
+			genC13(g, n, os.Stdout)
 		case "c16":
 			genC16(g, n, os.Stdout, len(os.Args) > 5 && os.Args[5] == "exhaustive")
 		case "cli":
